@@ -12,6 +12,7 @@ import (
 
 func init() {
 	vpHarnesses["vpC06_O3"] = vpC06_O3
+	vpHarnesses["vpC06_O4"] = vpC06_O4
 	vpHarnesses["vpC06_O1"] = vpC06_O1
 	vpHarnesses["vpC06_O2"] = vpC06_O2
 }
@@ -221,4 +222,52 @@ func vpC06_O3() {
 	if isBlind {
 		vpAssert("random blind attribute of the revocable credential is the sum of the shares", vpSameBig(cred.Attributes[1], new(big.Int).Add(builder.mUser[1], sigMsg.MIssuer[1])))
 	}
+}
+
+// C06-O4: issuance of a revocable credential where the witness in the issuer's
+// message is incomplete or wrong (what a JSON document `"nonrev":{}` or one with a
+// key left out decodes to): the holder refuses with an error - no panic, no credential.
+func vpC06_O4() {
+	pk, sk := vpKeys(0, 3, 1024, true)
+	ctx, nonce1, nonce2 := vpBigBits("ctx", 256), vpBigBits("n1", 80), vpBigBits("n2", 80)
+	secret := vpBigBits("secret", 255)
+	upd, err := revocation.NewAccumulator(sk)
+	vpAssume(err == nil)
+	acc, err := upd.SignedAccumulator.UnmarshalVerify(pk)
+	vpAssume(err == nil)
+	wit, err := revocation.RandomWitness(sk, acc)
+	vpAssume(err == nil)
+	wit.SignedAccumulator = upd.SignedAccumulator
+	attrs := []*big.Int{vpBigBits("attr0", 256), wit.E}
+	vpAssume(attrs[0].Cmp(wit.E) != 0 && secret.Cmp(wit.E) != 0)
+	builder, err := NewCredentialBuilder(pk, ctx, secret, nonce2, nil, nil)
+	vpAssume(err == nil)
+	commitMsg, err := builder.CommitToSecretAndProve(nonce1)
+	vpAssume(err == nil)
+	sigMsg, err := NewIssuer(sk, pk, ctx).IssueSignature(commitMsg.U, attrs, wit, commitMsg.Nonce2, nil)
+	vpAssume(err == nil)
+	w := sigMsg.NonRevocationWitness
+	switch vpChoose("witdev", 7) {
+	case 0:
+		sigMsg.NonRevocationWitness = &revocation.Witness{}
+	case 1:
+		sigMsg.NonRevocationWitness = &revocation.Witness{U: w.U, E: w.E}
+	case 2:
+		sigMsg.NonRevocationWitness = &revocation.Witness{E: w.E, SignedAccumulator: w.SignedAccumulator}
+	case 3:
+		sigMsg.NonRevocationWitness = &revocation.Witness{U: w.U, SignedAccumulator: w.SignedAccumulator}
+	case 4: // a signed accumulator without its signed data
+		sigMsg.NonRevocationWitness = &revocation.Witness{U: w.U, E: w.E, SignedAccumulator: &revocation.SignedAccumulator{PKCounter: pk.Counter}}
+	case 5: // a witness value that is not what was accumulated
+		d := vpBigBits("d", 64)
+		vpAssume(d.Sign() > 0)
+		sigMsg.NonRevocationWitness = &revocation.Witness{U: w.U, E: new(big.Int).Add(w.E, d), SignedAccumulator: w.SignedAccumulator}
+	case 6: // a valid witness for a value that is not among the signed attributes
+		other, err := revocation.RandomWitness(sk, acc)
+		vpAssume(err == nil && other.E.Cmp(w.E) != 0 && other.E.Cmp(attrs[0]) != 0 && other.E.Cmp(secret) != 0)
+		other.SignedAccumulator = w.SignedAccumulator
+		sigMsg.NonRevocationWitness = other
+	}
+	cred, err := builder.ConstructCredential(sigMsg, append([]*big.Int{}, attrs...))
+	vpAssert("issuer message with an incomplete or wrong witness is refused", err != nil && cred == nil)
 }
